@@ -28,7 +28,7 @@ def run(tier):
         fam.vlib.log("[race] skipped: the trace stage already reported a violation")
         return rc1
     # subscribers share the cached notifications, the match tree and the server's tables: the same scenarios under the race detector
-    rc2 = fam.race_stage(PID, tier, [("stall", 300), ("stream", 300)] if tier == "quick" else [("stall", 10000), ("stream", 10000), ("remove", 5000), ("overlap", 5000)])
+    rc2 = fam.race_stage(PID, tier, [("stall", 300), ("stream", 300), ("overlap", 2500)] if tier == "quick" else [("stall", 10000), ("stream", 10000), ("remove", 5000), ("overlap", 5000)])
     return max(rc1, rc2)
 
 
